@@ -866,9 +866,10 @@ _REC_CLASSES: Dict[str, Any] = {}
 class SoRig:
     """event log of one C32 execution: calls on scheduled observers, deliveries at the user's callbacks"""
 
-    def __init__(self, ds: detsched.DetSched, raise_at: int):
+    def __init__(self, ds: detsched.DetSched, raise_at: int, current_thread_sched: bool = False):
         self.ds = ds
         self.raise_at = raise_at
+        self.del_offset = 300 if current_thread_sched else 0     # see DelSink._call
         self.n_so = 0
         self.n_sink = 0
         self.turn = 0
@@ -943,13 +944,16 @@ class DelSink:
     def _call(self, k: str, v: Any) -> None:
         rig = self.rig
         rig.sp()
-        rig.log(e="dstart", so=self.sid, k=k, v=v)
+        # codec: with a CurrentThreadScheduler target every thread that schedules is a thread of the target scheduler, so
+        # "on the target scheduler" is vacuous there; delivering thread t is written as 300 + t (inside LoopThreads)
+        dth = rig.th() + rig.del_offset
+        rig.ds.trace.append({"e": "dstart", "so": self.sid, "k": k, "v": v, "th": dth})
         rig.sp()
         self.n += 1
         if self.sid == 0 and self.n == rig.raise_at:
-            rig.log(e="dend", so=self.sid, raised=True)
+            rig.ds.trace.append({"e": "dend", "so": self.sid, "raised": True, "th": dth})
             raise RuntimeError(f"downstream callback {self.n} raises")
-        rig.log(e="dend", so=self.sid, raised=False)
+        rig.ds.trace.append({"e": "dend", "so": self.sid, "raised": False, "th": dth})
 
     def on_next(self, v: Any) -> None:
         self._call("N", v)
@@ -1000,6 +1004,11 @@ def make_scheduler(kind: str):
         return NewThreadScheduler(thread_factory=factory)
     if kind == "timeout":
         return TimeoutScheduler()
+    if kind == "current":
+        # ReplaySubject's default kind of scheduler: a trampoline per calling thread - a scheduled run() executes on the
+        # thread that scheduled it, so two drain chains started by two threads really run concurrently
+        from reactivex.scheduler import CurrentThreadScheduler
+        return CurrentThreadScheduler()
     raise ValueError(kind)
 
 
@@ -1013,7 +1022,7 @@ def so_build(sc: Dict[str, Any]):
         import reactivex
         from reactivex import operators as ops
         from reactivex.subject import ReplaySubject, Subject
-        rig = SoRig(ds, sc.get("raise_at", 0))
+        rig = SoRig(ds, sc.get("raise_at", 0), sc.get("sched") == "current")
         _SO_RIG = rig
         ds.rig = rig
         loop = make_scheduler(sc.get("sched", "eventloop"))
@@ -1196,8 +1205,14 @@ def so_scenarios(tier: str, seed: int) -> List[Dict[str, Any]]:
         add("observe_on_merge", ("NC", "NE"), "eventloop", 0, 2, 250)
         add("replay", ("NNC", "U"), "eventloop", 0, 3, 250)
         add("replay", ("NNE", "U"), "newthread", 2, 2, 200)
+        # two callers of ensure_active (the emitter and the subscriber's tail call) on per-thread trampolines: two drain chains
+        # would really run at once.  All arrival positions of the subscribe, bound 2 to completion
+        add("replay", ("NNC", "U"), "current", 0, 4, 1200)
+        add("replay", ("NNNE", "U"), "current", 0, 2, 600)
         add("replay", ("NNC", "U"), "eventloop", 2, 1, 120)       # the other subscriber's callback raises on the shared loop
     else:
+        for pr in (("NNC", "U"), ("NNE", "U"), ("NNNC", "UU"), ("NN", "U")):
+            add("replay", pr, "current", 0, 10)
         for sched in ("eventloop", "eventloop_exit", "newthread", "timeout"):
             for scr in ("C", "NC", "NNC", "NNNC", "NNNNC", "NNE", "NCN", "NEC", "NNN"):
                 for ra in (0, 1, 2, 3):
@@ -1227,27 +1242,35 @@ def so_design(ck, tier: str) -> None:
             raise tlc.TLCFailure(f"vacuous ScheduledObserver design run: {never}")
         return [(res, "design: abstract scheduled observer, all interleavings of producers and scheduler threads")]
 
-    def impl(drains, dies, mx):
-        # the handshake as implemented (PlusCal)
-        cfg = tlc.cfg_text(dict(MaxNotes=mx, Drains=drains, LoopDies=dies, Bug="none"), spec="Spec",
+    def impl(drains, dies, mx, subs=frozenset(), replay=0):
+        # the handshake as implemented (PlusCal); subs = {200}: a second ensure_active caller (ReplaySubject's subscribing thread)
+        cfg = tlc.cfg_text(dict(MaxNotes=mx, Drains=drains, LoopDies=dies, Bug="none", Subs=set(subs), Replay=replay), spec="Spec",
                            invariants=["Serial", "OrderOK", "NothingLeftBehind", "OneRunner", "LockOK"], properties=["EventuallyDelivered"])
         res = tlc.run("ScheduledObserverImpl", cfg, workers=1 if quick else 2, timeout=3000, coverage=True, allow_violation=False)
-        labels = ("p0", "pa", "pl", "pe", "ps", "pi", "d0", "dl", "dc", "dw", "de", "df", "dg", "dr")
+        labels = ("p0", "pa", "pt", "pl", "pe", "ps", "pi", "d0", "dl", "dc", "dw", "de", "df", "dg", "dr") + (("st", "sl", "se", "ss") if subs else ())
         never = [a for a in labels if res.coverage.get(a, 0) == 0]
         if never:
             raise tlc.TLCFailure(f"vacuous ScheduledObserverImpl run: labels never taken {never}")
         return [(res, f"design: queue/is_acquired/has_faulted handshake as implemented (PlusCal), {len(drains)} scheduler thread(s), "
-                      f"<= {mx} notifications, safety + liveness")]
+                      f"{'producer + subscriber tail call (replay ' + str(replay) + ')' if subs else 'one ensure_active caller'}, <= {mx} notifications, safety + liveness")]
 
     def control():
         # negative control: the model without the is_acquired reset must break NothingLeftBehind
-        cfg = tlc.cfg_text(dict(MaxNotes=3, Drains={1}, LoopDies=True, Bug="keep_acquired"), spec="Spec", invariants=["NothingLeftBehind"])
+        cfg = tlc.cfg_text(dict(MaxNotes=3, Drains={1}, LoopDies=True, Bug="keep_acquired", Subs=set(), Replay=0), spec="Spec",
+                           invariants=["NothingLeftBehind"])
         res = tlc.run("ScheduledObserverImpl", cfg, workers=1, timeout=900)
         ck.note("negative_control_keep_acquired_refuted", res.violated == "NothingLeftBehind")
         if res.violated != "NothingLeftBehind":
             raise tlc.TLCFailure("negative control of ScheduledObserverImpl was not refuted")
+        # the unlocked test of is_acquired: harmless with one caller, two runners with two callers
+        cfg = tlc.cfg_text(dict(MaxNotes=2, Drains={1, 2}, LoopDies=False, Bug="unlocked_test", Subs={200}, Replay=1), spec="Spec",
+                           invariants=["OneRunner", "Serial"])
+        res = tlc.run("ScheduledObserverImpl", cfg, workers=1, timeout=900)
+        ck.note("negative_control_unlocked_test_two_callers_refuted", res.violated in ("OneRunner", "Serial"))
+        if res.violated not in ("OneRunner", "Serial"):
+            raise tlc.TLCFailure("negative control 'unlocked_test' of ScheduledObserverImpl was not refuted")
         return []
-    tasks = [abstract, lambda: impl({1}, True, 3 if quick else 4)]
+    tasks = [abstract, lambda: impl({1}, True, 3 if quick else 4), lambda: impl({1, 2}, False, 2 if quick else 3, {200}, 1 if quick else 2)]
     if not quick:
         tasks += [lambda: impl({1, 2}, False, 4), control]
     with ThreadPoolExecutor(len(tasks)) as ex:
